@@ -133,7 +133,16 @@ func exploreAll(e *caseEmitter, p [][]string, max int) (int, bool) {
 			cut = true
 			break
 		}
-		runSchedule(pre)
+		func() {
+			defer func() {
+				if v := recover(); v != nil { // the controller gave up on a misbehaving (mutated) tree
+					lastTrace = nil
+					ctl = nil
+					cached = nil
+				}
+			}()
+			runSchedule(pre)
+		}()
 		tr := lastTrace
 		full := make([]int, len(tr))
 		for i, st := range tr {
@@ -322,12 +331,16 @@ func genFlushOld(e *caseEmitter, pkg string, thorough bool) {
 	n0 := e.n
 	cuts := 0
 	run := func(p [][]string) {
-		max := 4000
+		max := 1500
 		if thorough {
 			max = 60000
 		}
-		if _, cut := exploreAll(e, p, max); cut {
+		n, cut := exploreAll(e, p, max)
+		if cut {
 			cuts++
+		}
+		if dbgGen {
+			println("  E", pkg, n, cut, fmt.Sprint(p))
 		}
 	}
 	closers := []string{"0:0:fin", "0:0:syn", "0:0:late2", "1:0:syn"}
